@@ -564,8 +564,15 @@ func roundTripValidity(c *Ctx, b *roaring.Bitmap, m *ISet, when string) bool {
 			return
 		}
 		rt := roaring.New()
-		if _, err := rt.ReadFrom(bytes.NewReader(buf)); err != nil {
-			c.Fail("roundtrip/portable/ReadFrom/"+when, "ReadFrom failed on the library's own bytes: %v", err)
+		// the stream may arrive in pieces of any size
+		var rerr error
+		if c.R.Chance(0.5) {
+			_, rerr = rt.ReadFrom(bytes.NewReader(buf))
+		} else {
+			_, rerr = rt.ReadFrom(&chunkedReader{data: append([]byte(nil), buf...), r: c.R})
+		}
+		if rerr != nil {
+			c.Fail("roundtrip/portable/ReadFrom/"+when, "ReadFrom failed on the library's own bytes: %v", rerr)
 			ok = false
 			return
 		}
